@@ -103,7 +103,7 @@ def main(argv=None):
             print('  case {}: {}'.format(v['case_id'], v['detail']))
             print('VIOLATION property={} replay={}'.format(prop, path))
             reported += 1
-        print('violations: {} (distinct cases stored: {})'.format(stats.n_violations, len(seen)))
+        print('violations: {} (distinct cases stored: {}) by group: {}'.format(stats.n_violations, len(seen), dict(stats.viol_groups)))
         rc = 1
     print('{} {} seed={} evaluations={} states={} transitions={} traces={} nontrivial={} violations={} known={} wall={:.1f}s'.format(
         prop, ns.tier, ns.seed, stats.evaluations, len(stats.states), stats.transitions, stats.traces,
